@@ -6,11 +6,61 @@ package main
 import (
 	"fmt"
 	"go/ast"
+	"go/build"
 	"go/importer"
+	"go/parser"
 	"go/token"
 	"go/types"
+	"os"
+	"path/filepath"
 	"strings"
 )
+
+// repoImporter resolves imports of portbase packages from the repo tree that is being extracted (so that the
+// extractor does not depend on the directory it is started in or on module resolution); everything else goes
+// to the standard source importer.
+type repoImporter struct {
+	fset  *token.FileSet
+	std   types.Importer
+	cache map[string]*types.Package
+}
+
+func (ri *repoImporter) Import(path string) (*types.Package, error) {
+	const pfx = "github.com/safing/portbase/"
+	if !strings.HasPrefix(path, pfx) {
+		return ri.std.Import(path)
+	}
+	if p, ok := ri.cache[path]; ok {
+		return p, nil
+	}
+	dir := filepath.Join(repo, strings.TrimPrefix(path, pfx))
+	ents, err := os.ReadDir(dir)
+	if err != nil {
+		return nil, err
+	}
+	var files []*ast.File
+	for _, e := range ents {
+		n := e.Name()
+		if e.IsDir() || !strings.HasSuffix(n, ".go") || strings.HasSuffix(n, "_test.go") {
+			continue
+		}
+		if ok, err := build.Default.MatchFile(dir, n); err != nil || !ok {
+			continue
+		}
+		f, err := parser.ParseFile(ri.fset, filepath.Join(dir, n), nil, 0)
+		if err != nil {
+			return nil, err
+		}
+		files = append(files, f)
+	}
+	conf := types.Config{Importer: ri}
+	p, err := conf.Check(path, ri.fset, files, nil)
+	if err != nil {
+		return nil, err
+	}
+	ri.cache[path] = p
+	return p, nil
+}
 
 type typeCfg struct {
 	dir          string
@@ -32,7 +82,7 @@ func translateType(cfg typeCfg) {
 		afs = append(afs, af)
 	}
 	info := &types.Info{Types: map[ast.Expr]types.TypeAndValue{}, Uses: map[*ast.Ident]types.Object{}, Defs: map[*ast.Ident]types.Object{}}
-	conf := types.Config{Importer: importer.ForCompiler(fset, "source", nil)}
+	conf := types.Config{Importer: &repoImporter{fset: fset, std: importer.ForCompiler(fset, "source", nil), cache: map[string]*types.Package{}}}
 	pkg, err := conf.Check(cfg.dir, fset, afs, info)
 	if err != nil {
 		die("golean: type-check %s: %v", cfg.dir, err)
